@@ -5,7 +5,7 @@ import ast
 import re
 
 from sa import linform as L, match as M, norm, pc as PC, prog, regexlang as R, rulekit as K
-from sa.cfg import EXPLICIT, cfg_of
+from sa.cfg import ALL as ALL_EDGES, EXPLICIT, cfg_of
 from sa.consteval import Folder, NotConst
 from sa.loader import AnalysisError
 
@@ -22,7 +22,7 @@ def emitted(fn, writer_call: str):
         raise AnalysisError(f"C19.size: part loop not found in {fn.where}")
     per, closing = [], []
     for c, b in K.exprs(fn, writer_call):
-        arg = b["X"]
+        arg = norm.subst(b["X"], c)  # `h = part._binary_headers; writer.write(h)` emits the header block (an awaited value stays a name)
         inside = any(x is loop[0] for x in K.loop_ancestors(c))
         (per if inside else closing).append(arg)
     return loop[0], per, closing
@@ -72,49 +72,157 @@ def _start_ok(e, prev: str, sub_len: tuple[str, ...]):
     return None
 
 
+def _impure(e) -> bool:
+    return any(isinstance(x, (ast.Await, ast.Yield, ast.YieldFrom, ast.Lambda, ast.NamedExpr)) for x in ast.walk(e))
+
+
+def _attr_chains(e) -> set[str]:
+    return {norm.raw(x) for x in ast.walk(e) if isinstance(x, ast.Attribute) and isinstance(x.ctx, ast.Load)}
+
+
+class _Flow:
+    """Flow-sensitive resolution of locals: a name read at a CFG node is replaced by the right-hand side of the one definition
+    that reaches that node (resolved in turn where it was made).  Unlike norm.subst this also follows a local that is assigned
+    again LATER in the function (`prev = self._prev_chunk ... prev = prev[:idx]`): what counts is which definition reaches the use.
+    A definition whose value reads an attribute that is stored again between the definition and the use is left alone."""
+
+    def __init__(self, fn_node):
+        from sa import dataflow as D
+
+        self.D = D
+        self.g = cfg_of(fn_node)
+        self.rd_in, _ = D.reaching_defs(self.g)
+        self.stores: dict[str, list] = {}
+        for n in self.g.nodes:
+            for root in K.node_exprs(n):
+                for x in ast.walk(root):
+                    if isinstance(x, ast.Attribute) and isinstance(x.ctx, (ast.Store, ast.Del)):
+                        self.stores.setdefault(norm.raw(x), []).append(n)
+                    elif isinstance(x, ast.AugAssign) and isinstance(x.target, ast.Attribute):
+                        self.stores.setdefault(norm.raw(x.target), []).append(n)
+
+    def node_of(self, ast_node):
+        ns = [n for n in self.g.nodes_of(ast_node) if n.in_finally_copy is None]
+        return ns[0] if ns else None
+
+    def defs_at(self, name: str, n):
+        """[(def node, rhs)] of the definitions of `name` that reach n; None if one of them is opaque."""
+        out = []
+        for nm, d in sorted(self.rd_in[n.id]):
+            if nm != name:
+                continue
+            dn = self.g.nodes[d]
+            rhs = self.D.def_rhs(dn, name) if dn is not self.g.entry else None
+            if rhs is None or _impure(rhs) or self._stale(rhs, dn, n):
+                return None
+            out.append((dn, rhs))
+        return out or None
+
+    def _stale(self, rhs, dn, n) -> bool:
+        for ch in _attr_chains(rhs):
+            for m in [m for k, ms in self.stores.items() if k == ch or ch.startswith(k + ".") for m in ms]:
+                if m is dn:
+                    continue
+                after_def = m in self.g.reachable([dn], model=ALL_EDGES)
+                if after_def and (m is n or n in self.g.reachable([m], model=ALL_EDGES)):
+                    return True
+        return False
+
+    def resolve(self, e, n, depth: int = 6):
+        """Copy of e as evaluated at CFG node n, locals with exactly one reaching definition replaced by it."""
+        flow = self
+
+        class T(ast.NodeTransformer):
+            def visit_Name(self, x):
+                if not isinstance(x.ctx, ast.Load) or depth <= 0:
+                    return x
+                ds = flow.defs_at(x.id, n)
+                if ds is None or len(ds) != 1:
+                    return x
+                return flow.resolve(ds[0][1], ds[0][0], depth - 1)
+
+            def visit_Lambda(self, x):
+                return x
+
+            def _comp(self, x):
+                return x  # comprehension scopes are not needed here
+
+            visit_ListComp = visit_SetComp = visit_GeneratorExp = visit_DictComp = _comp
+
+        return ast.fix_missing_locations(T().visit(norm.clone(e)))
+
+    def alternatives(self, e, n, depth: int = 4) -> list:
+        """The values e can take at n, one per branch of a conditional expression / per reaching definition of a local that is
+        assigned on several branches (`s = 0 if first else k`, or `if first: s = 0` / `else: s = k`), each resolved."""
+        if e is None:
+            return [None]
+        if isinstance(e, ast.IfExp):
+            return self.alternatives(e.body, n, depth) + self.alternatives(e.orelse, n, depth)
+        if isinstance(e, ast.Name) and depth > 0:
+            ds = self.defs_at(e.id, n)
+            if ds is not None:
+                out = []
+                for dn, rhs in ds:
+                    out += self.alternatives(rhs, dn, depth - 1)
+                return out
+        return [self.resolve(e, n)]
+
+
+def _branches(e) -> list:
+    """The values of a conditional expression, one per branch (e itself otherwise)."""
+    if isinstance(e, ast.IfExp):
+        return _branches(e.body) + _branches(e.orelse)
+    return [e]
+
+
 def scan(chk, repo):
     """BodyPartReader._read_chunk_from_stream: on every path the first search for the part delimiter looks at a haystack that
     begins in the previous chunk, no later than len(delimiter)-1 bytes before its end: a delimiter that straddles the read
-    boundary is then found before any later one (necessary for `the part ends at the first delimiter`)."""
+    boundary is then found before any later one (necessary for `the part ends at the first delimiter`).
+    A search whose start offset depends on a condition (`find(sub, 0 if first_chunk else ...)`) is one search case per value."""
     fn = repo.func(MP, "BodyPartReader._read_chunk_from_stream")
     g = cfg_of(fn.node)
+    flow = _Flow(fn.node)
+    delim = ("b'\\r\\n' + self._boundary",)
     finds = []
     for n in g.nodes:
         if n.in_finally_copy is not None:
             continue
         for c in K.node_calls(n):
-            if isinstance(c.func, ast.Attribute) and c.func.attr in ("find", "index", "rfind") and c.args and norm.text(c.args[0], c).replace('"', "'") in ("b'\\r\\n' + self._boundary",):
+            if isinstance(c.func, ast.Attribute) and c.func.attr in ("find", "index", "rfind") and c.args and norm.raw(flow.resolve(c.args[0], n)).replace('"', "'") in delim:
                 finds.append((n, c))
     if not finds:
         raise AnalysisError("C19.scan: no search for CRLF + boundary in BodyPartReader._read_chunk_from_stream")
     fnodes = {n.id for n, _c in finds}
     n_first = 0
+    prev = "self._prev_chunk"
+    sub_len = ("len(sub)", "len(b'\\r\\n' + self._boundary)", "self._boundary_len", "len(self._boundary) + 2")
     for n, c in finds:
         others = fnodes - {n.id}
         if g.find_path([g.entry], lambda x, n=n: x is n, lambda x: x.id in others, EXPLICIT) is None:
             continue  # never the first search on a path
-        n_first += 1
-        hay = norm.subst(c.func.value, c)
+        hay = flow.resolve(c.func.value, n)
         lm = _leftmost(hay)
         start = c.args[1] if len(c.args) > 1 else None
-        prev = "self._prev_chunk"
-        sub_len = ("len(sub)", "len(b'\\r\\n' + self._boundary)", "self._boundary_len", "len(self._boundary) + 2")
-        if isinstance(lm, ast.Subscript) and isinstance(lm.slice, ast.Slice) and lm.slice.upper is None and norm.raw(lm.value) == prev:
-            ok = _start_ok(norm.subst(lm.slice.lower, c) if lm.slice.lower is not None else None, prev, sub_len) if start is None else None
-        elif norm.raw(lm) == prev and lm is not hay:
-            ok = _start_ok(norm.subst(start, c) if start is not None else None, prev, sub_len)
-        else:
-            ok = False
         covers_new = any(isinstance(x, ast.Name) and x.id == "chunk" for x in ast.walk(hay))
-        if c.func.attr != "find":
-            ok = False
-        if ok and covers_new:
-            chk.ok("C19.scan", c, f"first delimiter search on its path: haystack `{K.short(hay, 40)}` starts in the previous chunk" + (f" at `{norm.raw(start)}`" if start is not None else ""))
-        elif ok is None:
-            chk.analysis_error(f"C19.scan: start offset of `{K.short(c, 80)}` has an unrecognised shape (line {c.lineno})")
+        if isinstance(lm, ast.Subscript) and isinstance(lm.slice, ast.Slice) and lm.slice.upper is None and norm.raw(lm.value) == prev:
+            cases = [(a, _start_ok(a, prev, sub_len) if start is None else None) for a in _branches(lm.slice.lower)]  # resolved with hay
+        elif norm.raw(lm) == prev and lm is not hay:
+            cases = [(a, _start_ok(a, prev, sub_len)) for a in flow.alternatives(start, n)]
         else:
-            chk.violation("C19.scan", c, K.short(c, 80), "search over self._prev_chunk + chunk from <= len(prev) - len(delimiter) + 1",
-                          "on some path the first search for the part delimiter does not cover the seam between the previous and the new chunk: a delimiter straddling the read boundary is missed (or found after a later one), so the next part's headers and body are returned as content of this part")
+            cases = [(start, False)]
+        for a, ok in cases:
+            n_first += 1
+            at = f" at `{K.short(a, 60)}`" if a is not None else ""
+            if c.func.attr != "find":
+                ok = False
+            if ok and covers_new:
+                chk.ok("C19.scan", c, f"first delimiter search on its path: haystack `{K.short(hay, 40)}` starts in the previous chunk" + at)
+            elif ok is None:
+                chk.analysis_error(f"C19.scan: start offset of `{K.short(c, 80)}` has an unrecognised shape{at} (line {c.lineno})")
+            else:
+                chk.violation("C19.scan", c, K.short(c, 80), "search over self._prev_chunk + chunk from <= len(prev) - len(delimiter) + 1",
+                              "on some path the first search for the part delimiter does not cover the seam between the previous and the new chunk: a delimiter straddling the read boundary is missed (or found after a later one), so the next part's headers and body are returned as content of this part")
     chk.expect_count("C19.scan", n_first, 2, "delimiter searches that come first on a path")
 
 
@@ -183,22 +291,26 @@ def run(chk):
     ps = norm.fn_defs(size.node).defs.get("part_size", [])
     rn = [r for r in ast.walk(size.node) if isinstance(r, ast.Return) and isinstance(r.value, ast.Constant) and r.value.value is None]
     want_lits = {"(encoding)", "(te_encoding)", "(part_size is None)"}
-    # latch form: the test sets a flag that is false before the loop, and every return of a number is under `not flag`
+    # latch form: the test moves a flag away from the value it has before the loop (`unknown = True` after `unknown = False`, or
+    # `all_known = False` after `all_known = True`), every return of a number is under the flag still having its first value and
+    # None is returned under the moved one
     latch_ok = None
     for a in ast.walk(size.node):
-        if isinstance(a, ast.Assign) and isinstance(a.targets[0], ast.Name) and isinstance(a.value, ast.Constant) and a.value.value is True \
+        if isinstance(a, ast.Assign) and isinstance(a.targets[0], ast.Name) and isinstance(a.value, ast.Constant) and isinstance(a.value.value, bool) \
                 and {str(l) for c in PC.pc(a, raw=True) for l in c} >= want_lits:
             flag = a.targets[0].id
-            others = [v for d, v in norm.fn_defs(size.node).defs.get(flag, []) if d is not a]
+            moved = a.value.value  # the value that says `some part has no known length`
+            odefs = [(d, v) for d, v in norm.fn_defs(size.node).defs.get(flag, []) if d is not a]
+            others = [v if not K.loop_ancestors(d) else None for d, v in odefs]  # the first value is given before the loop, never again inside it
             nums = [r for r in ast.walk(size.node) if isinstance(r, ast.Return) and r.value is not None and not (isinstance(r.value, ast.Constant) and r.value.value is None)]
-            if others and all(isinstance(v, ast.Constant) and v.value is False for v in others) and nums and all(
-                    any((not l.pos and l.text == flag) for l in PC.units(PC.pc(r, raw=True))) for r in nums) and rn and any(
-                    any(l.pos and l.text == flag for l in PC.units(PC.pc(r, raw=True))) for r in rn):
+            if others and all(isinstance(v, ast.Constant) and v.value is (not moved) for v in others) and nums and all(
+                    any((l.pos is (not moved) and l.text == flag) for l in PC.units(PC.pc(r, raw=True))) for r in nums) and rn and any(
+                    any(l.pos is moved and l.text == flag for l in PC.units(PC.pc(r, raw=True))) for r in rn):
                 latch_ok = a
     if ps and norm.raw(ps[0][1]) == "part.size" and rn and {str(l) for c in PC.pc(rn[0], raw=True) for l in c} >= want_lits:
         chk.ok("C19.size", rn[0], "size is None whenever a part is content/transfer-encoded or of unknown size (the body is then chunked)")
     elif ps and norm.raw(ps[0][1]) == "part.size" and latch_ok is not None:
-        chk.ok("C19.size", latch_ok, f"a part that is content/transfer-encoded or of unknown size raises the flag `{latch_ok.targets[0].id}`; a number is returned only while the flag is down, None otherwise (the body is then chunked)")
+        chk.ok("C19.size", latch_ok, f"a part that is content/transfer-encoded or of unknown size sets the flag `{latch_ok.targets[0].id}` to {latch_ok.value.value}; a number is returned only while the flag is {not latch_ok.value.value}, None otherwise (the body is then chunked)")
     else:
         chk.violation("C19.size", size, "if encoding or te_encoding or part_size is None: return None", "", "a size is declared although a part is re-encoded while writing")
     # write(): re-encoding happens exactly when size said None
